@@ -188,8 +188,12 @@ func (w *worker[T, JobType]) releaseWaiters(processing uint32) {
 
 	// Only release waiters if worker is paused or if running with an empty queue
 	if w.IsPaused() || (w.IsRunning() && w.queues.Len() == 0) {
-		// Broadcast to all waiters to signal they can continue
+		// Broadcast to all waiters to signal they can continue. Taking the lock orders the
+		// broadcast after a waiter that has evaluated its condition but not yet parked,
+		// so the wake-up cannot fall in between and get lost.
+		w.mx.Lock()
 		w.waiters.Broadcast()
+		w.mx.Unlock()
 	}
 }
 
@@ -232,6 +236,25 @@ func (w *worker[T, JobType]) Errs() <-chan error {
 
 // processNextJob processes the next Job in the queue.
 func (w *worker[T, JobType]) processNextJob() error {
+	// Count the job as in flight before it leaves its queue, so that WaitUntilFinished always
+	// sees it, either as pending or as processing. If nothing is dispatched in the end the
+	// reservation is returned and the waiters are told.
+	w.curProcessing.Add(1)
+	dispatched := false
+
+	defer func() {
+		if !dispatched {
+			w.releaseWaiters(w.curProcessing.Add(^uint32(0)))
+		}
+	}()
+
+	// The worker may have been paused or stopped since the event loop looked. With the slot
+	// reserved first, either PauseAndWait/Stop see the reservation and wait for it, or the
+	// status change is seen here and nothing is started.
+	if w.IsPaused() || w.IsStopped() {
+		return nil
+	}
+
 	queue, err := w.queues.next()
 
 	if err != nil {
@@ -282,8 +305,8 @@ func (w *worker[T, JobType]) processNextJob() error {
 		return nil
 	}
 
-	w.curProcessing.Add(1)
 	j.setAckId(ackId)
+	dispatched = true
 
 	// then job will be process by the processSingleJob function inside spawnWorker
 	w.sendToNextChannel(j)
@@ -418,13 +441,26 @@ func (w *worker[T, JobType]) goListenToContext() {
 func (w *worker[T, JobType]) goEventLoop() {
 	go func(signal <-chan struct{}) {
 		for range signal {
-			for w.IsRunning() && w.curProcessing.Load() < w.concurrency.Load() && w.queues.Len() > 0 {
+			// a loop that outlived a Restart must not dispatch next to its successor
+			for w.IsRunning() && w.isCurrentLoop(signal) && w.curProcessing.Load() < w.concurrency.Load() && w.queues.Len() > 0 {
 				if err := w.processNextJob(); err != nil {
 					w.sendError(err)
 				}
 			}
+
+			// going idle: the queues may have been emptied by Purge, or the worker paused,
+			// without any job completing
+			w.releaseWaiters(w.curProcessing.Load())
 		}
 	}(w.eventLoopSignal)
+}
+
+// isCurrentLoop tells whether signal is still the worker's event loop channel (Restart replaces it).
+func (w *worker[T, JobType]) isCurrentLoop(signal <-chan struct{}) bool {
+	w.mx.RLock()
+	defer w.mx.RUnlock()
+
+	return w.eventLoopSignal != nil && (<-chan struct{})(w.eventLoopSignal) == signal
 }
 
 func (w *worker[T, JobType]) stopTickers() {
@@ -535,6 +571,8 @@ func (w *worker[T, JobType]) Pause() error {
 	switch s := w.status.Load(); s {
 	case running:
 		w.status.Store(paused)
+		// let the event loop tell WaitUntilFinished callers: their condition changed
+		w.notifyToPullNextJobs()
 	case paused, stopped:
 		return nil
 	default:
